@@ -247,11 +247,11 @@ class SnapLogger:
         return lambda *a, **k: None
 
 
-def td7_checkpoint_mode(chk, rng, q, prefix="C06", check_release=False):
+def td7_checkpoint_mode(chk, rng, q, prefix="C06", check_release=False, check_warmup=False):
     """TD7 with deferred training: target cadence counted in training epochs, checkpoint copies only when decided"""
     for _ in range(2 if q else 20):
         script = [(int(rng.choice([1, 2, 3])), str(rng.choice(["term", "trunc"]))) for _ in range(3)]
-        total, warm, td = int(rng.choice([10, 14])), int(rng.choice([0, 3])), int(rng.choice([2, 3]))
+        total, warm, td = int(rng.choice([10, 14])), int(rng.choice([0, 3]) if not check_warmup else rng.choice([5, 8])), int(rng.choice([2, 3]))
         case = {"routine": "td7", "use_checkpoints": True, "script": script, "total_timesteps": total, "learning_starts": warm, "target_delay": td}
         seq = []
         mods_ref = {}
@@ -293,6 +293,20 @@ def td7_checkpoint_mode(chk, rng, q, prefix="C06", check_release=False):
                 for target in ("actor_target", "critic_target", "fixed_embedding", "fixed_embedding_target"):
                     if not tr.same(a[target], b[target]):
                         chk.fail(f"{prefix}:train_td7:cadence", f"{target} changed outside a training epoch", {"case": case, "iteration": it})
+        if check_warmup:       # no training epoch and no parameter change in iterations before learning_starts, although episodes end there
+            it3, early, ended_before = -1, 0, 0
+            for k_, _ in seq:
+                if k_ == "step":
+                    it3 += 1
+                elif it3 < warm:
+                    early += 1
+            steps_ = [sn for k_, sn in seq if k_ == "step"]
+            changed = [n_ for i_ in range(min(warm, len(steps_) - 1)) for n_ in steps_[i_] if not tr.same(steps_[i_][n_], steps_[i_ + 1][n_])]
+            ended_before = sum(1 for e in tr.step_events(res)[:warm] if e[5] or e[6])
+            chk.count("td7_episodes_ended_during_warmup", ended_before)
+            if early or changed:
+                chk.fail(f"{prefix}:train_td7:update-before-warmup", "TD7 in deferred-training mode trained before learning_starts was reached",
+                         {"case": case, "training_epochs_before_warmup": early, "modules_changed_before_warmup": sorted(set(changed))})
         if check_release:      # the training epochs executed in an iteration are exactly those released by the assessment of that iteration
             released = {i: n for i, _, n in res["checkpoint_decisions"]}
             per_it, it2 = {}, -1
